@@ -66,6 +66,8 @@ def main : IO Unit := do
     let a := table.autoOfTy t
     IO.println s!"payload\t\{\"key\": {q key}, \"send\": {jb a.send}, \"sync\": {jb a.sync}}"
   IO.println s!"required\t\{\"notSendSync\": {jl (requiredNotSendSync.map q)}, \"branded\": {jl (requiredBranded.map q)}, \"callbacks\": {jl (requiredCallbacks.map q)}}"
+  for r in table.builderRows do
+    IO.println s!"builder\t\{\"adt\": {q r.1}, \"param\": {q r.2}, \"variance\": {q (vs (table.variance r.1 (.ty r.2)))}, \"ok\": {jb (table.builderOk r)}, \"storeMethods\": {jl ((table.builderRowMethods r).map q)}}"
   let unc := table.unclassified ++
     (table.adts.flatMap (fun d => (d.fields.filter (fun f => f.ty.hasUnclassified)).map (fun f => d.name ++ "." ++ f.name)))
   IO.println s!"viol\t\{\"theorem\": \"table_classified\", \"entries\": {jl (unc.map q)}}"
@@ -75,6 +77,7 @@ def main : IO Unit := do
   IO.println s!"viol\t\{\"theorem\": \"invariant_alias\", \"entries\": {jl (if aliasOk then [] else [q "type Invariant<'a>"])}}"
   IO.println s!"viol\t\{\"theorem\": \"branded_invariant\", \"entries\": {jl (table.violInvariant.map q)}}"
   IO.println s!"viol\t\{\"theorem\": \"not_send_not_sync\", \"entries\": {jl (table.violNotSendSync.map q)}}"
+  IO.println s!"viol\t\{\"theorem\": \"builders_invariant_in_value_type\", \"entries\": {jl (table.violBuilders.map q)}}"
   IO.println s!"viol\t\{\"theorem\": \"no_explicit_auto_impls\", \"entries\": {jl (table.violAutoImpls.map q)}}"
   IO.println s!"viol\t\{\"theorem\": \"callbacks_present\", \"entries\": {jl ((requiredCallbacks.filter (fun n => (table.callbackNamed n).isNone)).map q)}}"
   IO.println s!"viol\t\{\"theorem\": \"callbacks_higher_ranked\", \"entries\": {jl (((table.callbacks.filter (fun cb => !cb.ok)).map (·.name)).map q)}}"
